@@ -6,6 +6,8 @@
 import Varlink.Registry
 import Varlink.Extracted.Code
 import Varlink.ExpectedCode
+import Varlink.JsonWF
+import VarlinkProofs.Lemmas.Json
 namespace Varlink.C13
 open Varlink
 
@@ -260,6 +262,41 @@ theorem getDescription_other (r : Registry) (n : Bytes) (h : n ∉ r.names) :
 theorem empty_name_unreachable (r : Registry) :
     clientGetDescription r [] = .invalidParameter (str "interface") := by
   simp [clientGetDescription, serviceGetDescription]
+
+/-! ### over the wire -/
+
+theorem strList_wf (l : List Bytes) (h : ∀ x ∈ l, utf8Ok x = true) :
+    (JList.ofList (l.map JVal.str)).wf = true ∧ (JList.ofList (l.map JVal.str)).depth = 0 := by
+  induction l with
+  | nil => simp [JList.ofList, JList.wf, JList.depth]
+  | cons x xs ih =>
+    have hx := h x (by simp)
+    have := ih (fun y hy => h y (by simp [hy]))
+    simp [JList.ofList, JList.wf, JList.depth, JVal.wf, JVal.depth, hx, this.1, this.2]
+
+/-- **GetInfo through the bytes**: the client parsing the bytes the service wrote for GetInfo gets exactly
+    vendor, product, version, url and the interface list (any valid UTF-8 strings). -/
+theorem getInfo_over_the_wire (r : Registry)
+    (hv : utf8Ok r.vendor = true) (hp : utf8Ok r.product = true) (hve : utf8Ok r.version = true)
+    (hu : utf8Ok r.url = true) (hn : ∀ x ∈ r.names, utf8Ok x = true) :
+    (parseDoc (render (getInfoReply r))).bind (fun v => decodeInfo (some v)) =
+      some { vendor := r.vendor, product := r.product, version := r.version, url := r.url, interfaces := r.names } := by
+  have k1 : utf8Ok (str "vendor") = true := by decide
+  have k2 : utf8Ok (str "product") = true := by decide
+  have k3 : utf8Ok (str "version") = true := by decide
+  have k4 : utf8Ok (str "url") = true := by decide
+  have k5 : utf8Ok (str "interfaces") = true := by decide
+  obtain ⟨hlw, hld⟩ := strList_wf r.names hn
+  have hwf : (getInfoReply r).wf = true := by
+    unfold getInfoReply
+    cases h1 : r.vendor <;> cases h2 : r.product <;> cases h3 : r.version <;> cases h4 : r.url <;>
+      simp_all [optStr, JVal.wf, JMembers.wf]
+  have hdep : (getInfoReply r).depth ≤ maxDepth := by
+    unfold getInfoReply
+    cases h1 : r.vendor <;> cases h2 : r.product <;> cases h3 : r.version <;> cases h4 : r.url <;>
+      simp [optStr, JVal.depth, JMembers.depth, hld, maxDepth]
+  rw [parseDoc_render _ hwf hdep]
+  exact getInfo_reports_state r
 
 /-! ### non-vacuity (kept small: kernel `decide` re-evaluates the state at every use, so long histories
      are left to the compiled driver, which runs them on every check) -/
